@@ -627,6 +627,30 @@ example : ∀ arrs, (runG {} (some exRoot0) exFailOps).1[1]? = some (.ok (some a
     toMarrow {} exFields [exRec "x" [1]] = .ok arrs := fun arrs h =>
   (build_ok_oneShot {} exFields exRoot0 exNew exFailOps 1 arrs rfl h).1
 
+/-- `C10_histories_with_failures` and `C10_builds_wf_with_failures` apply to it with every hypothesis discharged: the
+arrays of the successful build decode to the documented rows of the one record pushed before it and are well formed -/
+example : ∀ arrs, (runG {} (some exRoot0) exFailOps).1[1]? = some (.ok (some arrs)) →
+    DecodesTo {} exFields arrs [exRec "x" [1]] ∧ arrs.length = exFields.length := by
+  intro arrs h
+  obtain ⟨h1, h2⟩ := C10_histories_with_failures {} exFields exRoot0 exNew
+    (by simp [exFields, Lemmas.C03.SchemaOKF, Lemmas.C03.SchemaOK]) (by decide) exFailOps
+    (by unfold OpsOK; decide) (Or.inl (by unfold OpsOK; decide)) 1 arrs rfl h
+  rw [h2] at h1
+  exact ⟨h1, h1.1⟩
+
+/-- `build_fails_after_failure`: the push at position 2 failed inside the builder, so the build at position 6 fails -/
+example : ∃ e', (runG {} (some exRoot0) exFailOps).1[6]? = some (.error e') := by
+  have h : ∃ e, (runG {} (some exRoot0) exFailOps).1[2]? = some (.error e) := by
+    have : ((runG {} (some exRoot0) exFailOps).1[2]?.map (·.isOk)) = some false := by decide +kernel
+    cases hv : (runG {} (some exRoot0) exFailOps).1[2]? with
+    | none => rw [hv] at this; cases this
+    | some o =>
+      cases o with
+      | ok v => rw [hv] at this; cases this
+      | error e => exact ⟨e, rfl⟩
+  obtain ⟨e, he⟩ := h
+  exact build_fails_after_failure {} exFields exRoot0 exNew exFailOps 6 2 (by decide) _ e rfl he rfl rfl
+
 /-- a value the `Serializer` wrapper refuses does NOT poison the builder: the build after it succeeds with the row pushed
 before it -/
 example : ((runG {} (some exRoot0) [.push (exRec "x" [1]), .viaSerializer (.bool true), .build]).1.map (·.cls) =
